@@ -29,10 +29,17 @@ type c06Params struct {
 	ReadDelayMs int
 	Policy      int
 	Long        bool // offer long demotions (goroutine delayed up to 150 ms of virtual time)
+	// Faulty adds a file that passes the permission check and then fails while being read: "emptygz" = a zero-byte
+	// .gz, "badgz" = a .gz that is not gzip data, "cutgz" = a .gz cut inside its header.  It contributes no line.
+	Faulty string
 }
 
 func (p c06Params) String() string {
-	return fmt.Sprintf("servers=%d files=%v catlimit=%d interval=%d glob=%v d=%d readdelay=%dms policy=%d long=%v", p.Servers, p.Files, p.CatLimit, p.Interval, p.Glob, p.D, p.ReadDelayMs, p.Policy, p.Long)
+	s := fmt.Sprintf("servers=%d files=%v catlimit=%d interval=%d glob=%v d=%d readdelay=%dms policy=%d long=%v", p.Servers, p.Files, p.CatLimit, p.Interval, p.Glob, p.D, p.ReadDelayMs, p.Policy, p.Long)
+	if p.Faulty != "" {
+		s += " +unreadable:" + p.Faulty
+	}
+	return s
 }
 
 func c06Setup(p c06Params) (what string, perKey map[string][2]float64) {
@@ -51,6 +58,18 @@ func c06Setup(p c06Params) (what string, perKey map[string][2]float64) {
 			perKey[k] = e
 		}
 		paths = append(paths, WriteScratch(fmt.Sprintf("%s/f%d.log", dir, f), sb.String()))
+	}
+	if p.Faulty != "" {
+		content := map[string]string{"emptygz": "", "badgz": "this is not gzip data\n", "cutgz": "\x1f\x8b\x08"}[p.Faulty]
+		// first in the list and first in glob order
+		paths = append([]string{WriteScratch(fmt.Sprintf("%s-%s/f-%s.log.gz", dir, p.Faulty, p.Faulty), content)}, paths...)
+		if p.Glob {
+			for f := range p.Files {
+				b, _ := os.ReadFile(paths[f+1])
+				WriteScratch(fmt.Sprintf("%s-%s/f%d.log", dir, p.Faulty, f), string(b))
+			}
+			return Scratch() + "/" + dir + "-" + p.Faulty + "/f*", perKey
+		}
 	}
 	if p.Glob {
 		return Scratch() + "/" + dir + "/f*.log", perKey
@@ -143,6 +162,9 @@ func c06Scenario(p c06Params, idx int) *explore.Scenario {
 		}
 		if viol != "" {
 			ncmd := len(p.Files) + 1 // the map command and one read command per file
+			if p.Faulty != "" {
+				ncmd++ // one more read command for the unreadable file
+			}
 			if p.Glob {
 				ncmd = 2
 			}
@@ -231,13 +253,16 @@ func c06Sig(msg string, v *explore.Violation) string {
 func c06ParamSets(tier string) (ps []c06Params, d int) {
 	if tier == "quick" {
 		return []c06Params{
-			{Servers: 1, Files: []int{2}, CatLimit: 2, D: 2},
 			{Servers: 2, Files: []int{1}, CatLimit: 2},
 			{Servers: 1, Files: []int{1, 1}, CatLimit: 2, Glob: true},
-			{Servers: 1, Files: []int{1, 1}, CatLimit: 1, Glob: true, D: 2},
 			{Servers: 1, Files: []int{1, 2}, CatLimit: 2},
-			{Servers: 1, Files: []int{2}, CatLimit: 2, Interval: 1, ReadDelayMs: 500, D: 2, Long: true},
 			{Servers: 2, Files: []int{1}, CatLimit: 2, Policy: 2},
+			{Servers: 1, Files: []int{2}, CatLimit: 2, Faulty: "emptygz"},
+			{Servers: 1, Files: []int{1, 1}, CatLimit: 1, Glob: true, Faulty: "badgz"},
+			{Servers: 1, Files: []int{1}, CatLimit: 2, Faulty: "cutgz"},
+			{Servers: 1, Files: []int{2}, CatLimit: 2, D: 2},
+			{Servers: 1, Files: []int{1, 1}, CatLimit: 1, Glob: true, D: 2},
+			{Servers: 1, Files: []int{2}, CatLimit: 2, Interval: 1, ReadDelayMs: 500, D: 2, Long: true},
 		}, 1
 	}
 	for _, srv := range []int{1, 2, 3} {
@@ -253,6 +278,10 @@ func c06ParamSets(tier string) (ps []c06Params, d int) {
 		}
 	}
 	ps = append(ps, c06Params{Servers: 2, Files: []int{2}, CatLimit: 2, Interval: 1})
+	for _, f := range []string{"emptygz", "badgz", "cutgz"} {
+		ps = append(ps, c06Params{Servers: 1, Files: []int{2}, CatLimit: 2, Faulty: f}, c06Params{Servers: 1, Files: []int{1, 1}, CatLimit: 1, Glob: true, Faulty: f},
+			c06Params{Servers: 2, Files: []int{1}, CatLimit: 1, Faulty: f})
+	}
 	return ps, 2
 }
 
